@@ -238,8 +238,9 @@ pub fn text_for(t: &Tree, rng: &mut Rng) -> Vec<u8> {
     };
     let body = refjson::to_text(t, &st, rng, false);
     if st.ws == 1 && rng.chance(1, 6) {
-        // leading whitespace other than a space is ordinary JSON text too
-        let mut out = rng.pick(&[&b"\n"[..], b"\t", b"\r\n", b"\n  ", b"\t "]).to_vec();
+        // leading white space other than a space is ordinary JSON text too (the parser also skips
+        // form feed and the escaped spellings of its change log)
+        let mut out = rng.pick(&[&b"\n"[..], b"\t", b"\r\n", b"\n  ", b"\t ", b"\x0c", b"\x0c\n", b"\\n", b"\\t", b"\\r", b"\\x0C"]).to_vec();
         out.extend_from_slice(&body);
         return out;
     }
@@ -333,7 +334,9 @@ pub fn run(ctx: &mut Ctx) {
                 _ => gen::key(&mut rng),
             },
             keypath: gen::keypath_for(&t, &mut rng),
-            keys: {
+            keys: if rng.chance(1, 8) {
+                Vec::new()
+            } else {
                 let mut k = vec![gen::key(&mut rng)];
                 if let Tree::Obj(v) = &t {
                     k.extend(v.iter().take(2).map(|(k, _)| k.clone()));
